@@ -49,7 +49,7 @@ impl<'n> TryFromNode<'n> for Field {
         let particles = || {
             node.ancestors()
                 .skip(1)
-                .take_while(|n| matches!(n.tag_name().name(), "sequence" | "choice"))
+                .take_while(|n| matches!(n.tag_name().name(), "sequence" | "choice" | "all"))
         };
         let parent_is_optional = particles().any(|n| n.attribute("minOccurs") == Some("0"));
         let is_optional = if is_attribute {
